@@ -31,7 +31,19 @@ func module() pipe.Tree {
 	}
 }
 
-var kinds = []string{"error", "unparseable", "panic", "goexit", "exit", "kill"}
+var kinds = []string{"error", "unparseable", "panic", "goexit", "exit", "kill",
+	"unparseable:unterminated-string", "unparseable:nul-byte", "unparseable:statement-at-top-level", "unparseable:garbage-after-valid-declarations", "unparseable:stray-closing-brace"}
+
+var unparseableTexts = map[string]string{
+	"unparseable":                                  "func {\n",
+	"unparseable:unterminated-string":              "var S_$T = \"abc\n",
+	"unparseable:nul-byte":                         "var N_$T = 1 \x00\n",
+	"unparseable:statement-at-top-level":           "x_$T := 1\n",
+	"unparseable:garbage-after-valid-declarations": "var Ok_$T = 1\n\nfunc Fine_$T() {}\n\n)\n",
+	"unparseable:stray-closing-brace":              "}\n",
+}
+
+func isUnparseable(kind string) bool { return strings.HasPrefix(kind, "unparseable") }
 
 type Fault struct {
 	Gen   string `json:"gen"`
@@ -53,9 +65,9 @@ func gens(f *Fault) []pipe.GenScript {
 	if f != nil {
 		var a pipe.Action
 		bad := pipe.Action{}
-		switch f.Kind {
-		case "unparseable":
-			bad.Render = "func {\n"
+		switch {
+		case isUnparseable(f.Kind):
+			bad.Render = unparseableTexts[f.Kind]
 		default:
 			bad.Render = "var F_$T_$G = 0\n"
 			bad.Ret = f.Kind
@@ -64,7 +76,7 @@ func gens(f *Fault) []pipe.GenScript {
 			a = pipe.Action{Render: "var V_$T_$G = 2\n", Defers: []pipe.Action{bad}}
 		} else {
 			a = bad
-			if f.Gen == "g2" && f.Kind == "unparseable" {
+			if f.Gen == "g2" && isUnparseable(f.Kind) {
 				a.Defers = []pipe.Action{{Render: "var D_$T_$G = 2\n"}}
 			}
 		}
@@ -240,7 +252,11 @@ func checkCase(c *core.Ctx, cs Case) {
 			return
 		}
 		// was the fault reached? (with All=false package b is not processed, so its call indices shift: use the run's own log)
-		switch f.Kind {
+		kind := f.Kind
+		if isUnparseable(kind) {
+			kind = "unparseable"
+		}
+		switch kind {
 		case "error":
 			if o.Err == "" {
 				c.Fail("", cs, "%s: a generator returned an error but Execute returned nil", desc)
@@ -274,7 +290,7 @@ func checkCase(c *core.Ctx, cs Case) {
 			c.Fail("", cs, "%s: gengo.sum was rewritten by a failed run\n--- before ---\n%s--- after ---\n%s", desc, before["gengo.sum"], after["gengo.sum"])
 		}
 		// the failing generator's previous file is byte-identical (returned error / unparseable rendering)
-		if f.Kind == "error" || f.Kind == "unparseable" {
+		if f.Kind == "error" || isUnparseable(f.Kind) {
 			prev := failPkg + "/zz_generated." + f.Gen + ".go"
 			if _, ok := before[prev]; !ok {
 				c.Internal("no previous output %s", prev)
@@ -426,7 +442,7 @@ func replay(c *core.Ctx, raw json.RawMessage) {
 func init() {
 	core.Register(&core.Prop{
 		ID: "C02", Level: "fault_enumeration", Run: run, Replay: replay,
-		Rule: "one fault of each kind {returned error, unparseable rendering, panic, runtime.Goexit, os.Exit, SIGKILL} at EVERY GenerateType call index and EVERY Defer callback index (taken from the log of the never-failed run) x All on/off, from a state with previous outputs and a gengo.sum produced by the real system; plus the crash state 'all files written, sum not saved' and every (quick: every 3rd) torn prefix of the new gengo.sum; thorough: all depth-2 sequences of {error, unparseable, SIGKILL} faults. Every case is non-trivial (a fault is injected); states = distinct (kind, in-defer, All, failing package, error?) classes",
+		Rule: "one fault of each kind {returned error, unparseable rendering in 6 forms (missing name, unterminated string, NUL byte, statement at top level, garbage after valid declarations, stray closing brace), panic, runtime.Goexit, os.Exit, SIGKILL} at EVERY GenerateType call index and EVERY Defer callback index (taken from the log of the never-failed run) x All on/off, from a state with previous outputs and a gengo.sum produced by the real system; plus the crash state 'all files written, sum not saved' and every (quick: every 3rd) torn prefix of the new gengo.sum; thorough: all depth-2 sequences of {error, unparseable, SIGKILL} faults. Every case is non-trivial (a fault is injected); states = distinct (kind, in-defer, All, failing package, error?) classes",
 		Assumptions: []string{
 			"process death = SIGKILL / os.Exit in a child process, panic and runtime.Goexit unwinding in-process; no power-loss (fsync) model",
 			"the single write(2) of sumfile.Save can be cut at any byte",
